@@ -10,8 +10,8 @@ PROP = dict(
     assumptions=["readers are always ready (futures polled once with a no-op waker)"],
     stub_notes=["serde_json::from_slice -> always Err (text parsing outside the claim)"],
     harnesses=[
-        H(ND, "c38", "c38_cap", "length > 1 MiB => Err after exactly 8 bytes, no payload read, no buffer allocated", timeout=300),
-        H(ND, "c38", "c38_small", "lengths 1..=4 are read in full (not rejected at the prefix)", timeout=300),
-        H(ND, "c38", "c38_dur_sign", "a published duration is a finite f64 with the right sign, is accepted on the way back and keeps its sign", timeout=300),
+        H(ND, "c38", "c38_cap", "length > 1 MiB => Err after exactly 8 bytes, no payload read, no buffer allocated", timeout=600),
+        H(ND, "c38", "c38_small", "lengths 1..=4 are read in full (not rejected at the prefix)", timeout=600),
+        H(ND, "c38", "c38_dur_sign", "a published duration is a finite f64 with the right sign, is accepted on the way back and keeps its sign", timeout=600),
     ],
 )
